@@ -122,11 +122,29 @@ theorem C11_code_data_decode (decomp : Bytes → Option Bytes) (data : Bytes) :
       (decomp data).bind fun raw => (decData (raw.length + 1) [] raw).map fun es => es.map CodecTie.toT := by
   rw [CodecTie.decodeData_eq]; simp
 
+/-- the Go code itself (`Index.Encode` and `Index.Decode`, translated from /repo on every run): the encoder refuses exactly the
+    indexes with a start or end key beyond the 16-bit length field; what it returns the decoder turns back into the same data
+    handle and the same entries (keys, offsets, lengths), for handles below 2^64 -/
+theorem C11_code_index_roundtrip (z : S2) (hz : S2Law z) (off len : Nat) (es : List (Bytes × Bytes × Nat × Nat))
+    (hw : IndexWF { dataBlock := ⟨off, len⟩, entries := es.map CodecTie.ofIT }) (o0 l0 : Nat) :
+    ∃ b, GenCodec.encodeIndex z.comp off len es = some b ∧ GenCodec.decodeIndex z.decomp b o0 l0 [] = some ((off, len), es) := by
+  have hall : es.all (fun e => decide (e.1.length ≤ 65535) && decide (e.2.1.length ≤ 65535)) = true := by
+    rw [List.all_eq_true]
+    intro e he
+    have := hw.2 (CodecTie.ofIT e) (List.mem_map_of_mem he)
+    simp only [IndexEntryWF, CodecTie.ofIT] at this
+    simp only [Bool.and_eq_true, decide_eq_true_eq]
+    omega
+  have henc := CodecTie.encodeIndex_eq z.comp off len es
+  rw [if_pos hall] at henc
+  exact ⟨_, henc, CodecTie.index_code_roundtrip z hz off len es hw _ henc o0 l0⟩
+
 #print axioms C11_data_guard
 #print axioms C11_data_roundtrip
 #print axioms C11_code_data_encode
 #print axioms C11_code_data_roundtrip
 #print axioms C11_code_data_decode
+#print axioms C11_code_index_roundtrip
 #print axioms C11_index_roundtrip
 #print axioms C11_footer_roundtrip
 #print axioms C11_footer_magic
